@@ -219,6 +219,52 @@ def writeAll : Nat → List Msg → Res Bytes
     let b ← writeAll (outChunkAfter c m) ms
     pure (a ++ b)
 
+/-! ### an endpoint: one `Protocol` that writes and reads -/
+
+/-- ONE `Protocol` object: the reader's state (`input`: chunk streams, input chunk size) and the writer's chunk
+size (`output`). `NewProtocol` gives each side its own settings object; nothing of one side is part of the other. -/
+structure Endpoint where
+  rd : Reader := {}
+  out : Nat := Gen.Rtmp.defaultChunkSize
+
+/-- What the application does with its endpoint. -/
+inductive EAct where
+  | write (m : Msg)
+  | read
+
+/-- One action against the transport: `inb` are the bytes that arrived and are not yet consumed. Result: the
+endpoint afterwards, the bytes it put on the wire, the message it delivered (a read), what is left of `inb`. -/
+def Endpoint.step (e : Endpoint) (inb : Bytes) : EAct → Res ((Endpoint × Bytes) × (Option Msg × Bytes))
+  | .write m => do
+    let w ← writeMessage e.out m
+    pure (({ e with out := outChunkAfter e.out m }, w), (none, inb))
+  | .read => do
+    let ((m, rd'), rest) ← readMessage e.rd inb
+    pure (({ e with rd := rd' }, []), (some m, rest))
+
+/-- A whole schedule of writes and reads, in the order the application issues them. -/
+def Endpoint.run (e : Endpoint) (inb : Bytes) : List EAct → Res ((Endpoint × Bytes) × (List Msg × Bytes))
+  | [] => ok ((e, []), ([], inb))
+  | a :: as => do
+    let ((e1, w1), (m1, in1)) ← e.step inb a
+    let ((e2, w2), (ms, in2)) ← e1.run in1 as
+    pure ((e2, w1 ++ w2), (m1.toList ++ ms, in2))
+
+def writesOf : List EAct → List Msg
+  | [] => []
+  | .write m :: as => m :: writesOf as
+  | .read :: as => writesOf as
+
+def readsOf : List EAct → Nat
+  | [] => 0
+  | .write _ :: as => readsOf as
+  | .read :: as => readsOf as + 1
+
+/-- The writer's chunk size after a list of messages. -/
+def outAfterAll : Nat → List Msg → Nat
+  | c, [] => c
+  | c, m :: ms => outAfterAll (outChunkAfter c m) ms
+
 /-! ### handshake (simple handshake: C0/S0 1 byte, C1/S1 1536, C2/S2 1536) -/
 
 def hsReadC0 (bs : Bytes) := copyN 1 bs
